@@ -217,14 +217,14 @@ func (o *oracle) validate(op Op) string {
 	if um, ok := op.opt("um"); ok {
 		ls := maskLetters(um)
 		for _, l := range ls {
-			if l == "x" {
+			if l == "x" || l == "fx" { // not a field of the message (fx: not a field of the nested message)
 				return "InvalidArgument"
 			}
 		}
 		if w, restricted := o.writable(op); restricted {
 			for _, l := range ls {
 				// a path is writable when it is a writable path or lies inside one (f.c inside f)
-				if !w[l] && !((l == "fc" || l == "fd") && w["f"]) {
+				if !w[l] && !((l == "fc" || l == "fd" || l == "fx") && w["f"]) {
 					return "InvalidArgument"
 				}
 			}
@@ -232,7 +232,7 @@ func (o *oracle) validate(op Op) string {
 	}
 	if rs, ok := op.opt("rs"); ok {
 		for _, l := range maskLetters(rs) {
-			if l == "x" {
+			if l == "x" || l == "fx" {
 				return "Internal"
 			}
 		}
@@ -553,7 +553,7 @@ func project(op Op, m rmsg) rmsg {
 			out.set(f, m.get(f))
 		}
 	}
-	if !keep["f"] && (keep["fc"] || keep["fd"]) && m.f != nil {
+	if !keep["f"] && (keep["fc"] || keep["fd"] || keep["fx"]) && m.f != nil {
 		// only sub-fields of the nested message are selected: it stays present, with those
 		sub := [2]int{}
 		if keep["fc"] {
